@@ -38,6 +38,10 @@ fn main() {
         10 | 11 | 12 => tmverif::props_loop::check_trace_prop(n, &cfg, &findings),
         20 => tmverif::props_loop::check_c20(&cfg, &findings),
         13 => tmverif::props_c13::check(&cfg, &findings),
+        14 => tmverif::props_c14::check(&cfg, &findings),
+        15 => tmverif::props_c15::check(&cfg, &findings),
+        17 => tmverif::props_c17::check(&cfg, &findings),
+        18 => tmverif::props_c18::check(&cfg, &findings),
         _ => {
           eprintln!("property {} has no check", id);
           std::process::exit(2);
@@ -53,6 +57,10 @@ fn main() {
         6 => tmverif::props_c06::replay(file),
         10 | 11 | 12 | 20 => tmverif::props_loop::replay(n, file),
         13 => tmverif::props_c13::replay(file),
+        14 => tmverif::props_c14::replay(file),
+        15 => tmverif::props_c15::replay(file),
+        17 => tmverif::props_c17::replay(file),
+        18 => tmverif::props_c18::replay(file),
         _ => {
           eprintln!("property {} has no replay", id);
           std::process::exit(2);
